@@ -41,19 +41,50 @@ def blocks(tier):
             continue
         for first in range(n - k + 1):
             yield (is_core, k, first)
+    # language tags that differ only in case (pyxform treats them as two languages): core grid, subsets <= 2 (quick) / 3
+    for k in ((1, 2) if tier == "quick" else (1, 2, 3)):
+        for first in range(core - k + 1):
+            yield ("case", k, first)
+    yield ("napp",)
+
+
+CASE_LANGS = ["", "en", "EN"]
 
 
 def expand(block, tier):
+    if block[0] == "napp":
+        # noAppErrorString: a bind message that becomes itext only when translated; with and without a reference
+        core = grid.cells(True)
+        for ls in [s for r in (1, 2, 3) for s in itertools.combinations(["", "en", "fr"], r)]:
+            for ref in (False, True):
+                for extra in [None, *core]:
+                    for dl in DEFLANGS[:2]:
+                        yield {"cells": [list(extra)] if extra else [], "dl": dl, "ref": ref, "napp": list(ls), "rev": bool(len(ls) % 2)}
+        return
+    if block[0] == "case":
+        _, k, first = block
+        with grid.langs(CASE_LANGS):
+            cs = grid.cells(True)
+        n = 0
+        for rest in itertools.combinations(cs[first + 1:], k - 1):
+            for dl in (None, "en", "EN"):
+                n += 1
+                yield {"cells": [list(c) for c in (cs[first], *rest)], "dl": dl, "ref": False, "langs": "case", "rev": bool(n % 2)}
+        return
     is_core, k, first = block
     cs = grid.cells(is_core)
     if k == 0:
         combos = [()]
     else:
         combos = ((cs[first], *rest) for rest in itertools.combinations(cs[first + 1:], k - 1))
+    nrev = 0
     for combo in combos:
         for dl in DEFLANGS:
             for ref in ((False, True) if k <= 2 else (False,)):
-                yield {"cells": [list(c) for c in combo], "dl": dl, "ref": ref}
+                # column order: both left-to-right orders for small subsets, alternating above
+                nrev += 1
+                for rev in ((False, True) if k <= 2 else (bool(nrev % 2),)):
+                    yield {"cells": [list(c) for c in combo], "dl": dl, "ref": ref, "rev": rev}
 
 
 def required_outcomes(tier):
@@ -101,8 +132,19 @@ def invariant_problems(obs, xform, dl):
     return pr, len(langs), len(refs)
 
 
+def build_case(case, **kw):
+    """workbook of a grid case (shared with C08): language alphabet, column order, optional noAppErrorString cells"""
+    import contextlib
+
+    with (grid.langs(CASE_LANGS) if case.get("langs") == "case" else contextlib.nullcontext()):
+        wb, ckw = grid.build([tuple(c) for c in case["cells"]], case["dl"], ref=case["ref"], rev=case.get("rev", False), **kw)
+    for l in case.get("napp", ()):
+        wb["survey"][0]["noAppErrorString" + (f"::{l}" if l else "")] = f"q.napp.{l or '0'}" + (" ${inner}" if case["ref"] else "")
+    return wb, ckw
+
+
 def check_one(case):
-    wb, kw = grid.build([tuple(c) for c in case["cells"]], case["dl"], ref=case["ref"])
+    wb, kw = build_case(case)
     out = run_convert(wb, **kw)
     ntr = len(wb["survey"]) + len(wb["choices"]) + len(case["cells"])
     if out.kind == "crash":
